@@ -1,7 +1,5 @@
 import re
 
-from io import BytesIO
-
 from buidl.helper import int_to_big_endian
 
 BECH32_ALPHABET = "qpzry9x8gf2tvdw0s3jn54khce6mua7l"
@@ -139,26 +137,27 @@ def cbor_encode(data):
     elif length <= 65535:
         prefix = b"\x59" + length.to_bytes(2, "big")
     else:
-        prefix = b"\x60" + length.to_bytes(4, "big")
+        prefix = b"\x5a" + length.to_bytes(4, "big")
     return prefix + data
 
 
 def cbor_decode(data):
-    s = BytesIO(data)
-    b = s.read(1)[0]
+    if not data:
+        return None
+    b = data[0]
     if b >= 0x40 and b < 0x58:
-        length = b - 0x40
-        return s.read(length)
-    if b == 0x58:
-        length = s.read(1)[0]
-        return s.read(length)
-    if b == 0x59:
-        length = int.from_bytes(s.read(2), "big")
-        return s.read(length)
-    if b == 0x60:
-        length = int.from_bytes(s.read(4), "big")
-        return s.read(length)
-    return None
+        width = 0
+    elif b in (0x58, 0x59, 0x5A, 0x5B):
+        width = 1 << (b - 0x58)
+    else:
+        return None
+    if len(data) < 1 + width:
+        return None
+    length = int.from_bytes(data[1 : 1 + width], "big") if width else b - 0x40
+    if len(data) != 1 + width + length:
+        # truncated or trailing bytes: not a single well-formed byte string
+        return None
+    return data[1 + width :]
 
 
 def encode_bech32(nums):
